@@ -2356,6 +2356,94 @@ impl<'a> Harness<'a> {
 		}
 	}
 
+	/// What the reorg cache hands back. A fluffed transaction T spends the confirmed coins X and W; a block then spends W
+	/// through another transaction (T leaves the txpool, X stays unspent); a stem transaction S spending X is admitted;
+	/// a heavier sibling of that block reorganises it away, and the pool replays its cache of recently accepted
+	/// transactions - T among them - on the new head. Whatever it decides about T, the stem transactions must still be
+	/// jointly valid with the public pool afterwards (the invariants run after every step).
+	fn op_reorg_cache_replay(&mut self) {
+		let v = self.view();
+		let free = self.free_coins(&v);
+		if free.len() < 2 {
+			self.run.count("skip.reorg_cache_replay_no_coins", 1);
+			return;
+		}
+		let (x, wc) = (free[0].clone(), free[1].clone());
+		let total = x.value + wc.value;
+		let (fee, shift) = self.good_fee(2, 1, total);
+		let t = match self.mk_tx(&[x.clone(), wc.clone()], 1, fee, shift, None, 0) {
+			Some((t, _)) => t,
+			None => return,
+		};
+		let t_kernel = t.kernels()[0].hash();
+		let src = self.rand_src();
+		self.submit(Submission {
+			kind: "valid",
+			eff: t.clone(),
+			tx: t,
+			label: Label::Valid,
+			stem: false,
+			src,
+			desc: "T: spends X and W (reorg cache scenario)".into(),
+		});
+		let in_txpool = |h: &Harness, k: &Hash| h.pool.read().txpool.entries.iter().any(|e| e.tx.kernels().iter().any(|x| x.hash() == *k));
+		if self.stop || !in_txpool(self, &t_kernel) {
+			self.run.count("skip.reorg_cache_replay_T_not_admitted", 1);
+			return;
+		}
+		// a block on the head spending W through another transaction
+		let head = self.head_hash();
+		let wfee = self.min_fee(1, 1).max(1);
+		let tw = match self.mk_tx(&[wc], 1, wfee, 0, None, 0) {
+			Some((t, _)) => t,
+			None => return,
+		};
+		let d1 = 1000 + self.prng.below(500);
+		let first = match self.deliver_foreign("foreign_block", head, &[(tw, 100)], d1, 1) {
+			Some((bh, true, _)) => bh,
+			_ => {
+				self.run.count("skip.reorg_cache_replay_block_not_head", 1);
+				return;
+			}
+		};
+		if self.stop {
+			return;
+		}
+		if in_txpool(self, &t_kernel) {
+			// the block did not carry the conflicting spend (selection declined it)
+			self.run.count("skip.reorg_cache_replay_T_still_pooled", 1);
+			return;
+		}
+		// S: stem transaction spending X
+		let (sfee, sshift) = self.good_fee(1, 1, x.value);
+		let s_tx = match self.mk_tx(&[x], 1, sfee, sshift, None, 0) {
+			Some((t, _)) => t,
+			None => return,
+		};
+		let src = self.rand_src();
+		self.submit(Submission {
+			kind: "valid",
+			eff: s_tx.clone(),
+			tx: s_tx,
+			label: Label::Valid,
+			stem: true,
+			src,
+			desc: "S: stem transaction spending X after T was dropped (reorg cache scenario)".into(),
+		});
+		if self.stop {
+			return;
+		}
+		// heavier sibling of the block: T comes back from the reorg cache
+		let _ = first;
+		let d2 = d1 + 1 + self.prng.below(100);
+		if let Some((_, true, true)) = self.deliver_foreign("reorg", head, &[], d2, 0) {
+			self.run.count("reorg_cache_replays_with_a_stem_spender_of_the_same_coin", 1);
+			if in_txpool(self, &t_kernel) {
+				self.run.count("reorg_cache_replay.T_back_in_the_txpool", 1);
+			}
+		}
+	}
+
 	/// A transaction that becomes mineable exactly at the next height: spend of a
 	/// coinbase maturing there, or a kernel locked to that height.
 	fn submit_boundary(&mut self) {
@@ -2469,6 +2557,8 @@ impl<'a> Harness<'a> {
 		);
 		let boundary_at = 5 + self.prng.usize_below(n_target.max(6) - 5);
 		let mut boundary_done = false;
+		let replay_at = 3 + self.prng.usize_below(n_target.max(4) - 3);
+		let mut replay_done = false;
 		while self.n_ops < n_target && !self.stop {
 			if Instant::now() > self.shared.deadline {
 				self.run.count("sequences_truncated_by_deadline", 1);
@@ -2477,6 +2567,11 @@ impl<'a> Harness<'a> {
 			if !boundary_done && self.n_ops >= boundary_at {
 				boundary_done = true;
 				self.op_weight_boundary();
+				continue;
+			}
+			if !replay_done && self.n_ops >= replay_at {
+				replay_done = true;
+				self.op_reorg_cache_replay();
 				continue;
 			}
 			if self.force_mine {
